@@ -225,6 +225,7 @@ def Ev.hookOf : Ev → Option Nat
   | .skip h _ => some h
   | .unlock _ => none
   | .enableKube h => some h
+  | .enableKubeFail h _ => some h
   | .enableSched h => some h
 
 theorem retryLog_hook (t : Task) (sc : List Bool) : ∀ e ∈ retryLog t sc, e.hookOf = none ∨ e.hookOf = some t.hook := by
@@ -268,6 +269,27 @@ theorem syncPlan_hook (stop : Bool) (h : Hook) : ∀ (n : Nat) (bs : List KBindi
           · exact retryLog_hook _ _ e he
           · exact ih _ hlen _ e he
 
+theorem okCtxs_enableFailLog (h : Hook) : okCtxs (enableFailLog h) = [] := by
+  unfold enableFailLog
+  generalize h.kfail.takeWhile (· < h.kube.length) = l
+  induction l with
+  | nil => rfl
+  | cons a l ih => simpa [okCtxs] using ih
+
+theorem execCtxs_enableFailLog (h : Hook) : execCtxs (enableFailLog h) = [] := by
+  unfold enableFailLog
+  generalize h.kfail.takeWhile (· < h.kube.length) = l
+  induction l with
+  | nil => rfl
+  | cons a l ih => simpa [execCtxs] using ih
+
+theorem unlocked_enableFailLog (h : Hook) : unlocked (enableFailLog h) = [] := by
+  unfold enableFailLog
+  generalize h.kfail.takeWhile (· < h.kube.length) = l
+  induction l with
+  | nil => rfl
+  | cons a l ih => simpa [unlocked] using ih
+
 /-- everything the main queue writes while enabling hook `h` concerns `h` -/
 theorem hookPlan_hook (stop : Bool) (h : Hook) (sc : List Bool) :
     ∀ e ∈ hookPlan stop h sc, e.hookOf = none ∨ e.hookOf = some h.name := by
@@ -275,7 +297,10 @@ theorem hookPlan_hook (stop : Bool) (h : Hook) (sc : List Bool) :
   simp only [hookPlan] at he
   rcases List.mem_append.mp he with he | he
   · by_cases hk : h.kube.isEmpty <;> simp [hk] at he
-    rcases he with rfl | he
+    rcases he with he | rfl | he
+    · simp only [enableFailLog, List.mem_map] at he
+      obtain ⟨k, _, rfl⟩ := he
+      right; rfl
     · right; rfl
     · exact syncPlan_hook stop h _ _ (Nat.le_refl _) _ e he
   · by_cases hs : h.sched <;> simp [hs] at he
@@ -284,7 +309,7 @@ theorem hookPlan_hook (stop : Bool) (h : Hook) (sc : List Bool) :
 /-- `unlock` is written only directly behind the successful execution (or the skip) of the same iteration -/
 theorem step_new_events (stop : Bool) (hooks : List Hook) (s : St) :
     ∃ new, (step stop hooks s).log = s.log ++ new ∧
-      (new = [] ∨ (∃ h, new = [.enableSched h]) ∨ (∃ h, new = [.enableKube h]) ∨
+      (new = [] ∨ (∃ h, new = [.enableSched h]) ∨ (∃ h, new = [.enableKube h] ∨ ∃ k, new = [.enableKubeFail h k]) ∨
        (∃ h cs ms, new = [.skip h cs, .unlock ms]) ∨ (∃ h cs, new = [.exec h true cs]) ∨
        (∃ h cs, new = [.exec h false cs]) ∨ (∃ h cs ms, new = [.exec h false cs, .unlock ms])) := by
   unfold step
@@ -292,7 +317,9 @@ theorem step_new_events (stop : Bool) (hooks : List Hook) (s : St) :
   · exact ⟨[], by simp, Or.inl rfl⟩
   · split
     · exact ⟨_, rfl, Or.inr (Or.inl ⟨_, rfl⟩)⟩
-    · exact ⟨_, rfl, Or.inr (Or.inr (Or.inl ⟨_, rfl⟩))⟩
+    · split
+      · exact ⟨_, rfl, Or.inr (Or.inr (Or.inl ⟨_, Or.inr ⟨_, rfl⟩⟩))⟩
+      · exact ⟨_, rfl, Or.inr (Or.inr (Or.inl ⟨_, Or.inl rfl⟩))⟩
     · split
       · exact ⟨_, rfl, Or.inr (Or.inr (Or.inr (Or.inl ⟨_, _, _, rfl⟩)))⟩
       · rename_i t' rest' _
